@@ -19,10 +19,13 @@ import (
 // the standard library's generic GCM). The switch is only flipped between
 // workloads, never while operations are in flight.
 
-var zvAsmDetected = candoAsm
+var zvAsmDetected = zvGetAsm()
 var zvAsmMu sync.Mutex
 
 func zvPaths() []bool {
+	if !zvSwitchAvailable {
+		return []bool{zvAsmDetected} // the selection cannot be forced on this tree: only what the library selects itself
+	}
 	if zvAsmDetected {
 		return []bool{true, false}
 	}
@@ -38,9 +41,9 @@ func zvPathName(asm bool) string {
 
 func zvWithAsm(on bool, f func()) {
 	zvAsmMu.Lock()
-	old := candoAsm
-	candoAsm = on && zvAsmDetected
-	defer func() { candoAsm = old; zvAsmMu.Unlock() }()
+	old := zvGetAsm()
+	zvSetAsm(on && zvAsmDetected)
+	defer func() { zvSetAsm(old); zvAsmMu.Unlock() }()
 	f()
 }
 
